@@ -1356,7 +1356,85 @@ pub fn check_all(obs: &Obs, out: &mut CaseOut) -> Summary {
     if obs.cfg.reporting && obs.stuck.is_empty() {
         check_reporting(obs, &lanes, &views, out, &mut sum);
     }
+    // ---- C17 at the runtime level
+    if obs.cfg.inactive_ms.is_some() && obs.stuck.is_empty() {
+        check_inactivity(obs, &lanes, &views, out);
+    }
     sum
+}
+
+/// C17, seen from outside the runtime: it stops for inactivity only when all of its tasks were idle for the
+/// whole timeout (each votes after that long without work of its own, a vote is withdrawn by new work unless
+/// the stop has begun), and - bounded progress under the paused clock - it does stop once every party has
+/// been idle for several timeouts with nothing stalled.
+fn check_inactivity(obs: &Obs, lanes: &[LaneInfo], views: &[SView], out: &mut CaseOut) {
+    let Some(t_ms) = obs.cfg.inactive_ms else { return };
+    let timeout = std::time::Duration::from_millis(t_ms);
+    // virtual instant of a ticket: that of the last script step started before it (time only moves inside
+    // the sleeping steps, in which neither the remotes nor the lanes start anything)
+    let v_of = |t: u64| obs.step_times.iter().filter(|(st, _)| *st <= t).last().map(|x| x.1);
+    let by_itself = match (obs.agent_finished, obs.stop_requested.or(obs.return_requested)) {
+        (Some(f), Some(e)) => f < e,
+        (Some(_), None) => true,
+        _ => false,
+    };
+    if let (true, Some(f_t), Some(f_v)) = (by_itself, obs.agent_finished, obs.finished_v) {
+        out.count("c17-agent-stopped-by-itself");
+        // Work of the write task: every frame a lane handed over before the end.
+        'lanes: for li in lanes {
+            for e in li.rec.emitted.iter().filter(|e| e.t1.map_or(false, |t| t < f_t) && !matches!(e.what, Emitted::Initialized)) {
+                let Some(a_v) = v_of(e.t0) else { continue };
+                out.count("c17-activity-checked");
+                // (work started in the very instant the runtime ended may have come after the stop began)
+                if a_v < f_v && f_v.saturating_duration_since(a_v) < timeout {
+                    out.violation(
+                        "C17",
+                        "runtime/stopped-while-active/lane-event",
+                        "the agent runtime stopped for inactivity less than the timeout after a lane produced an event (the write task cannot have had an outstanding vote for that long)",
+                        json!({"lane": li.spec.name, "event_at_ticket": e.t0, "finished_at_ticket": f_t, "gap_ms": f_v.saturating_duration_since(a_v).as_millis() as u64, "timeout_ms": t_ms}),
+                    );
+                    break 'lanes;
+                }
+            }
+        }
+        // Work of the read task: commands that provably reached a lane (unanimous stops only: with no remote
+        // left the write task alone ends the agent).
+        let unanimous = views.iter().any(|v| matches!(v.completion, Some((_, Some(DisconnectionReason::AgentTimedOut)))));
+        if unanimous {
+            'cmds: for v in views {
+                for r in v.reqs.iter().filter(|r| r.kind == ReqKind::Command && r.t1.map_or(false, |t| t < f_t)) {
+                    let Some(li) = lanes.iter().find(|l| l.spec.name == r.lane) else { continue };
+                    let delivered = li.rec.received.iter().any(|x| x.t > r.t0 && x.t < f_t && matches!(&x.what, Received::Command(b) if *b == r.body));
+                    if !delivered {
+                        continue;
+                    }
+                    let Some(a_v) = v_of(r.t0) else { continue };
+                    out.count("c17-activity-checked");
+                    if a_v < f_v && f_v.saturating_duration_since(a_v) < timeout {
+                        out.violation(
+                            "C17",
+                            "runtime/stopped-while-active/command",
+                            "the agent runtime stopped for inactivity less than the timeout after the read task delivered a command to a lane",
+                            json!({"lane": r.lane, "sent_at_ticket": r.t0, "finished_at_ticket": f_t, "gap_ms": f_v.saturating_duration_since(a_v).as_millis() as u64, "timeout_ms": t_ms}),
+                        );
+                        break 'cmds;
+                    }
+                }
+            }
+        }
+    }
+    if let Some((_, after)) = obs.final_idle {
+        out.count("c17-final-idle-periods");
+        if !obs.agent_finished.map_or(false, |f| f < after) {
+            let linked = views.iter().any(|v| v.frames.iter().any(|f| f.kind == FrameKind::Linked));
+            out.violation(
+                "C17",
+                format!("runtime/idle-agent-never-stopped/some-remote-linked={linked}"),
+                "every party was idle (nothing stalled, every reader draining) for five inactivity timeouts but the agent runtime did not stop",
+                json!({"timeout_ms": t_ms, "idle_ms": 5 * t_ms + 5}),
+            );
+        }
+    }
 }
 
 fn lane_emitted_bytes(li: &LaneInfo, body: &[u8]) -> bool {
